@@ -122,7 +122,9 @@ TOLERANCES = {
     'progress': '||x_K - x*|| <= rho * ||x_0 - x*|| with (K, rho = 1e-2) '
                 'from the calibration table CALIB (measured iteration '
                 'counts x10 capped at 4000, rho x100), 4K before a miss '
-                'counts; runs below 0.1 * start at 4K (slow tails) get 32K',
+                'counts; runs below 0.1 * start at 4K (slow tails) get 32K '
+                '(not the block-operator problems on X x X: 4K; measured '
+                'maximum 583 iterations over 412 such problems)',
     'stability': 'rate class hi (condition / scale-mismatch number > 12): '
                  'only ||x_k - x*|| <= 1e3 max(||x_0 - x*||, scale) for k <= '
                  '300 (the run ends early once within 1e-3 ||x_0 - x*||)',
@@ -1950,7 +1952,11 @@ def _nonsmooth(desc, strata):
     # slow (sublinear) tails of the primal-dual methods gets SLOW_FACTOR
     # times the budget before the miss counts; a run still above RHO_SLOW at
     # 4K is a miss.
-    res = _iterate(U, P, unflat(x0, X), SLOW_FACTOR * 4 * K, target, solver,
+    # Problems on X x X with full block operators cost 4-6 block evaluations
+    # per operator call: no slow-tail extension there (measured: at most 583
+    # iterations over 412 generated problems of that kind, 4K >= 4000).
+    sf = 1 if case['p']['domain'].get('square') else SLOW_FACTOR
+    res = _iterate(U, P, unflat(x0, X), sf * 4 * K, target, solver,
                    checkpoint=(4 * K, RHO_SLOW * err0))
     if res['k'] > K:
         strata.append('progress:needed-more-than-K')
@@ -1963,7 +1969,7 @@ def _nonsmooth(desc, strata):
             '{:.3g} (asserted ratio {:g} within {} iterations, {:g} by {}; '
             'cond class {})'.format(
                 'diverged' if res['diverged'] else 'no progress',
-                res['k'], res['err'], err0, rho, SLOW_FACTOR * 4 * K,
+                res['k'], res['err'], err0, rho, sf * 4 * K,
                 RHO_SLOW, 4 * K, cc))
     # KKT residual at the reached point, through sub-gradient inclusion
     eps = target
